@@ -87,6 +87,9 @@ func sameKind(a, b *Violation) bool {
 func (j *judge) minimise(nodes map[string]*node, v Violation) Violation {
 	reproduce := func(group []*ReqPlan) *Violation {
 		j2 := &judge{proj: j.proj, routes: j.routes, tag: j.tag, stats: newStats()}
+		if v.Class != "not-served" {
+			j2.broken = j.broken
+		}
 		j2.execGroup(nodes, group, v.SchedSeed)
 		for i := range j2.out {
 			if sameKind(&j2.out[i], &v) && j2.out[i].Focus == group[0].ID {
